@@ -198,18 +198,18 @@ Proof. vm_compute. split; reflexivity. Qed.
 
 Local Open Scope Z_scope.
 
-(** The specification: unchanged when shorter than [num]; otherwise the first
-    max(0, num - |end|) characters followed by [end]; never longer than
-    max(num, |end|) once it truncates. *)
+(** The specification: unchanged when it has at most [num] characters;
+    otherwise the first max(0, num - |end|) characters followed by [end],
+    never longer than max(num, |end|). *)
 Theorem truncate_spec val num e :
-  (Z.of_nat (length val) < num -> truncate_chars val num e = val) /\
-  (num <= Z.of_nat (length val) ->
+  (Z.of_nat (length val) <= num -> truncate_chars val num e = val) /\
+  (num < Z.of_nat (length val) ->
      truncate_chars val num e = firstn (Z.to_nat (Z.max 0 (num - Z.of_nat (length e)))) val ++ e /\
      Z.of_nat (length (truncate_chars val num e)) <= Z.max num (Z.of_nat (length e))).
 Proof.
   unfold truncate_chars. split; intro H.
-  - apply Z.ltb_lt in H. rewrite H. reflexivity.
-  - destruct (Z.of_nat (length val) <? num) eqn:E; [apply Z.ltb_lt in E; lia|].
+  - apply Z.leb_le in H. rewrite H. reflexivity.
+  - destruct (Z.of_nat (length val) <=? num) eqn:E; [apply Z.leb_le in E; lia|].
     split; [reflexivity|]. rewrite app_length, firstn_length. lia.
 Qed.
 
@@ -218,10 +218,10 @@ Qed.
     [num] and [end]. *)
 Theorem truncate_unfixed_refuted :
   exists val num e,
-    num <= Z.of_nat (length val) /\
+    num < Z.of_nat (length val) /\
     Z.max num (Z.of_nat (length e)) < Z.of_nat (length (truncate_chars_unfixed val num e)).
 Proof.
-  exists [104; 101; 108; 108; 111]%N, 2, [46; 46; 46]%N. vm_compute. split; [discriminate|reflexivity].
+  exists [104; 101; 108; 108; 111]%N, 2, [46; 46; 46]%N. vm_compute. split; reflexivity.
 Qed.
 
 (** Where the old code was right (the bound is not negative) the fix changes nothing. *)
@@ -229,7 +229,7 @@ Theorem truncate_fix_conservative val num e :
   Z.of_nat (length e) <= num -> truncate_chars val num e = truncate_chars_unfixed val num e.
 Proof.
   intro H. unfold truncate_chars, truncate_chars_unfixed.
-  destruct (Z.of_nat (length val) <? num); [reflexivity|]. f_equal.
+  destruct (Z.of_nat (length val) <=? num); [reflexivity|]. f_equal.
   set (k := num - Z.of_nat (length e)). assert (Hk : 0 <= k) by (unfold k; lia).
   rewrite Z.max_r by lia. unfold py_slice. change (0 <? 0) with false. cbv iota.
   destruct (k <? 0) eqn:E; [apply Z.ltb_lt in E; lia|].
@@ -248,21 +248,29 @@ Example truncate_examples :
   truncate_f (FStr [104; 101; 108; 108; 111]%N) (Some (FInt 6)) None = Ok (FStr [104; 101; 108; 108; 111]%N).
 Proof. vm_compute. repeat split. Qed.
 
-(** truncatewords: fewer than [num] words -> the words joined by one space;
-    otherwise the first [num] words and [end]. *)
+(** truncatewords: at most [num] words -> the words joined by one space (no
+    [end]); otherwise the first [num] words and [end]. *)
 Theorem truncatewords_spec v num e :
   let n := if num <=? 0 then 1 else num in
   n < MAX_TRUNC_WORDS ->
-  (Z.of_nat (length (py_words v)) < n -> truncatewords_str v num e = join_str [32%N] (py_words v)) /\
-  (n <= Z.of_nat (length (py_words v)) ->
+  (Z.of_nat (length (py_words v)) <= n -> truncatewords_str v num e = join_str [32%N] (py_words v)) /\
+  (n < Z.of_nat (length (py_words v)) ->
      truncatewords_str v num e = join_str [32%N] (firstn (Z.to_nat n) (py_words v)) ++ e).
 Proof.
   intros n Hn. unfold truncatewords_str. fold n.
   destruct (MAX_TRUNC_WORDS <=? n) eqn:E; [apply Z.leb_le in E; lia|].
   split; intro H.
-  - apply Z.ltb_lt in H. rewrite H. reflexivity.
-  - destruct (Z.of_nat (length (py_words v)) <? n) eqn:F; [apply Z.ltb_lt in F; lia|reflexivity].
+  - apply Z.leb_le in H. rewrite H. reflexivity.
+  - destruct (Z.of_nat (length (py_words v)) <=? n) eqn:F; [apply Z.leb_le in F; lia|reflexivity].
 Qed.
+
+(** Exactly [num] characters / words: nothing is cut and no ellipsis is added. *)
+Example truncate_boundary :
+  truncate_f (FStr [97; 98; 99]%N) (Some (FInt 3)) None = Ok (FStr [97; 98; 99]%N) /\
+  truncate_f (FStr [97; 98; 99; 100]%N) (Some (FInt 3)) None = Ok (FStr [46; 46; 46]%N) /\
+  truncatewords_f (FStr [97; 32; 98; 32; 99]%N) (Some (FInt 3)) None = Ok (FStr [97; 32; 98; 32; 99]%N) /\
+  truncatewords_f (FStr [97; 32; 98; 32; 99]%N) (Some (FInt 2)) None = Ok (FStr [97; 32; 98; 46; 46; 46]%N).
+Proof. vm_compute. repeat split. Qed.
 
 Local Close Scope Z_scope.
 
